@@ -25,6 +25,37 @@ def setup(ctx):
     return {}
 
 
+def random_subgroup(rng, sg):
+    """indices of the closure of one or two random operations of an irrep SpaceGroup (rotation, translation mod 1, time reversal)"""
+    ops = [(np.array(o.rotation, dtype=int), np.array(o.translation, dtype=float), bool(o.time_reversal)) for o in sg.symmetries]
+
+    def find(W, t, tr):
+        for i, (W2, t2, tr2) in enumerate(ops):
+            d = t - t2
+            if tr == tr2 and np.array_equal(W, W2) and np.abs(d - np.round(d)).max() < 1e-6:
+                return i
+        return None
+    ident = find(np.eye(3, dtype=int), np.zeros(3), False)
+    if ident is None:
+        return None
+    sel = {ident} | {int(i) for i in rng.integers(len(ops), size=int(rng.integers(1, 3)))}
+    while True:
+        new = set()
+        for i in sel:
+            for j in sel:
+                W = ops[i][0] @ ops[j][0]
+                t = ops[i][0] @ ops[j][1] + ops[i][1]
+                k = find(W, t, ops[i][2] != ops[j][2])
+                if k is None:
+                    return None
+                if k not in sel:
+                    new.add(k)
+        if not new:
+            break
+        sel |= new
+    return sorted(sel)
+
+
 def matrices_by_R(system):
     iR = system.rvec.iRvec
     return {key: {tuple(R): X[i] for i, R in enumerate(iR.tolist())} for key, X in system._XX_R.items()}
@@ -79,13 +110,34 @@ def case(ctx, rng, idx, state):
     kw = dict(proj=proj, positions=pos, atom_name=atom_names, soc=soc, magmom=None if mag is None else np.array(mag), reorder_back=True)
     if rng.random() < 0.5:
         monitors.warm_caches(system)   # a system that has been used before it is symmetrised
-    symmetrizer = system.symmetrize(**kw)
+    # every third case symmetrises over a proper subgroup through the documented symmetrize2(symmetrizer, use_symmetries_index=...):
+    # the symmetrizer comes from a throw-away copy, the subgroup is the closure of one or two random operations
+    sub_index = None
+    if idx % 3 == 2:
+        import copy
+        probe = copy.deepcopy(system)
+        with env.quiet():
+            sym_probe = probe.symmetrize(**kw)
+        if sym_probe is not None:
+            sub_index = random_subgroup(rng, sym_probe.spacegroup)
+            if sub_index is not None and len(sub_index) == len(sym_probe.spacegroup.symmetries):
+                sub_index = None
+    if sub_index is not None:
+        def do_symmetrize():
+            system.symmetrize2(sym_probe, use_symmetries_index=list(sub_index))
+            return sym_probe
+        wit["subgroup"] = [int(i) for i in sub_index]
+        ctx.count("subgroup_cases")
+    else:
+        def do_symmetrize():
+            return system.symmetrize(**kw)
+    symmetrizer = do_symmetrize()
     monitors.assert_no_stale_caches(ctx, system, "symmetrize", wit)
     sg_ops = None
     try:
         sg = symmetrizer.spacegroup if symmetrizer is not None else None
         if sg is not None:
-            sg_ops = [(np.array(op.rotation), np.array(op.translation)) for op in sg.symmetries]
+            sg_ops = [(np.array(op.rotation), np.array(op.translation)) for i, op in enumerate(sg.symmetries) if sub_index is None or i in sub_index]
     except Exception:
         sg_ops = None
     pg = system.pointgroup
@@ -159,7 +211,7 @@ def case(ctx, rng, idx, state):
     # ---- (4) idempotence -------------------------------------------------------------------------------------------------------------
     before = matrices_by_R(system)
     cbefore = system.wannier_centers_cart.copy()
-    system.symmetrize(**kw)
+    do_symmetrize()
     after = matrices_by_R(system)
     for key in keys:
         scale = max(np.abs(x).max() for x in before[key].values())
@@ -197,5 +249,5 @@ if __name__ == "__main__":
              "projections, soc, magnetic, matrices)",
         assumptions=["space group from irrep/spglib through the code's own symmetrize()", "tensor action on axial vectors written in the harness",
                      "only consistent projection sets (full shells; sp3 on tetrahedral sites)"],
-        required_counters=("k_points_checked", "centre_maps_checked", "group_large", "group_small", "magnetic_cases", "soc_cases"),
+        required_counters=("subgroup_cases", "k_points_checked", "centre_maps_checked", "group_large", "group_small", "magnetic_cases", "soc_cases"),
     )
